@@ -21,7 +21,7 @@ META = {
                   '31-step pool, roots T/S/A', 'compose': 'p, q <= 2 segments'},
         'thorough': {'path length': '<= 5', 'roundtrip expression length': '<= 3 steps'},
     },
-    'stubs': ['S1 ScopeVars.__init__', 'S3 glom_debug=True', 'S4 state reset'],
+    'stubs': ['S3 glom_debug=True', 'S4 state reset'],
     'outside_claim': ['arithmetic operators in reprs (not in the statement)', 'evaluation (not repr/pickle) of wildcards applied to the scope object S itself', 'slices with an index outside [-n, n]',
                       'slice step 0', 'literals outside the pool'],
     'assumptions': ['literal pool is finite because repr/eval/pickle are C boundaries (values are realised)'],
